@@ -227,11 +227,13 @@ Lemma semi_ctor_pools : forall c, semi_ctor_ok c = true ->
     labeled_idxs (se_classes c) <> [] /\ unlabeled_idxs (se_classes c) <> [] /\ 1 <= se_L c /\ 1 <= se_U c /\
     exists m, mode_of (se_mode c) = Some m.
 Proof.
-  intros c H. unfold semi_ctor_ok in H. repeat (apply andb_prop in H; destruct H as [H ?]).
-  apply Nat.leb_le in H. apply Nat.leb_le in H2. apply Nat.ltb_lt in H0. apply Nat.ltb_lt in H1.
+  intros c H. unfold semi_ctor_ok in H.
+  apply andb_prop in H. destruct H as [H Hp]. apply andb_prop in Hp. destruct Hp as [Hp1 Hp2].
+  apply andb_prop in H. destruct H as [H Hm]. apply andb_prop in H. destruct H as [HL HU].
+  apply Nat.leb_le in HL. apply Nat.leb_le in HU. apply Nat.ltb_lt in Hp1. apply Nat.ltb_lt in Hp2.
   repeat split; auto.
-  - intro E. rewrite E in H0. simpl in H0. lia.
-  - intro E. rewrite E in H1. simpl in H1. lia.
+  - intro E. rewrite E in Hp1. simpl in Hp1. lia.
+  - intro E. rewrite E in Hp2. simpl in Hp2. lia.
   - destruct (se_mode c); try discriminate; eexists; reflexivity.
 Qed.
 
